@@ -294,7 +294,9 @@ def summarize(tier: str, seed: int, merged: dict) -> dict:
             f"all expression trees ({spec}) x every and/or labelling, plus {len(leaf_forms())} leaf forms (all hedge chains "
             "of length <= 2 over 5 hedges, 3-chains, any / not any / very not any, input, output and disabled variables) "
             f"alone and under and/or; 5 renderings each; operator pairs: {'all 63 (n<=4), 9 (n=5)' if tier == 'thorough' else '9'}; "
-            f"rows {ROWS} and the batch of all rows; weights 0.5, 0.25. states = trees, transitions = rule loads + "
+            f"rows {ROWS} and the batch of all rows; weights {WEIGHTS[1:]}; every tree also through RuleBlock.activate under 6 activation "
+            "methods, triggered with hedged conclusions on the batch (stored degree re-read), and parsed into two long-lived rule objects "
+            "that held a weighted rule. states = trees, transitions = rule loads + "
             "activate_with calls, traces = reference evaluations; non-trivial = >= 2 leaves and a value strictly in (0,1)"
         ),
         "exhaustive": True,
